@@ -55,3 +55,33 @@ func NamePool() []string {
 	p = append(p, Bucket6()...)
 	return p
 }
+
+var (
+	sibOnce  sync.Once
+	siblings []string
+)
+
+// Siblings returns three names whose hashes share the first three hex digits (one level-1
+// directory of the file store) but differ pairwise in the fourth.
+func Siblings() []string {
+	sibOnce.Do(func() {
+		by3 := map[string][]string{}
+		for i := 0; i < 200000 && siblings == nil; i++ {
+			n := fmt.Sprintf("s%d", i)
+			h := stringutil.HashMailboxName(n)
+			ok := true
+			for _, o := range by3[h[:3]] {
+				if stringutil.HashMailboxName(o)[3] == h[3] {
+					ok = false
+				}
+			}
+			if ok {
+				by3[h[:3]] = append(by3[h[:3]], n)
+				if len(by3[h[:3]]) == 3 {
+					siblings = by3[h[:3]]
+				}
+			}
+		}
+	})
+	return siblings
+}
